@@ -198,7 +198,7 @@ def finish(a, mod, jobs, results, known, root, seed, t0, partial=False):
             fn = jobs[idx][0]
             name = fn.harness.name
             for lab in fn.harness.labels:
-                got = sum(v for k, v in hits.get(name, {}).items() if fnmatch.fnmatch(k, lab))
+                got = sum(v for k, v in hits.get(name, {}).items() if k == lab or fnmatch.fnmatch(k, lab))
                 if got == 0:
                     msg = 'vacuity: obligation %s of harness %s was never reached' % (lab, name)
                     if msg not in reasons:
